@@ -14,9 +14,11 @@ import (
 	"math/big"
 	"regexp"
 	"runtime"
+	"sync"
 	"sync/atomic"
 
 	"github.com/bnb-chain/tss-lib/v2/crypto"
+	"github.com/bnb-chain/tss-lib/v2/tss"
 
 	"verif/checks/c10"
 	"verif/internal/core"
@@ -147,6 +149,38 @@ func (s *sysInst) generic(i int) *big.Int {
 	return c10.Generic("c12/"+s.name+"/"+s.where+"/"+s.pNames[i], s.pBound[i])
 }
 
+var (
+	cruMu    sync.Mutex
+	cruCache = map[string][]*big.Int{}
+)
+
+// cubeRootsOfUnity returns the non-trivial cube roots of unity modulo the secp256k1 field prime or group
+// order (the endomorphism constants beta, lambda), nil for any other modulus.
+func cubeRootsOfUnity(m *big.Int) []*big.Int {
+	sp := tss.S256().Params()
+	if m.Cmp(sp.P) != 0 && m.Cmp(sp.N) != 0 {
+		return nil
+	}
+	cruMu.Lock()
+	defer cruMu.Unlock()
+	if v, ok := cruCache[m.String()]; ok {
+		return v
+	}
+	// roots of x^2 + x + 1: (-1 +- sqrt(-3)) / 2
+	sq := new(big.Int).ModSqrt(new(big.Int).Mod(big.NewInt(-3), m), m)
+	var out []*big.Int
+	if sq != nil {
+		inv2 := new(big.Int).ModInverse(big2, m)
+		for _, sg := range []int64{1, -1} {
+			r := new(big.Int).Mul(sq, big.NewInt(sg))
+			r.Sub(r, big1).Mul(r, inv2).Mod(r, m)
+			out = append(out, r)
+		}
+	}
+	cruCache[m.String()] = out
+	return out
+}
+
 func equivalent(a, b, mod *big.Int) bool {
 	if mod == nil {
 		return a.Cmp(b) == 0
@@ -169,6 +203,26 @@ func (c *checker) perturbProof(s *sysInst) {
 			{"-1", new(big.Int).Sub(v, big1)},
 			{"generic", s.generic(i)},
 			{"0", big.NewInt(0)},
+		}
+		// structured replacements: values related to v by the symmetries of the group it lives in (negation,
+		// doubling, and for scalars modulo the secp256k1 order the two cube-root-of-unity multiples that the
+		// curve endomorphism maps to a point with the same y): a verifier comparing "half" of its equation
+		// accepts exactly these
+		if m := s.pEq[i]; m != nil && m.Sign() > 0 {
+			vm := new(big.Int).Mod(v, m)
+			cands = append(cands, struct {
+				p string
+				v *big.Int
+			}{"negated", new(big.Int).Mod(new(big.Int).Neg(vm), m)}, struct {
+				p string
+				v *big.Int
+			}{"doubled", new(big.Int).Mod(new(big.Int).Lsh(vm, 1), m)})
+			for k, l := range cubeRootsOfUnity(m) {
+				cands = append(cands, struct {
+					p string
+					v *big.Int
+				}{fmt.Sprintf("times-cube-root-of-unity-%d", k+1), new(big.Int).Mod(new(big.Int).Mul(vm, l), m)})
+			}
 		}
 		for _, cd := range cands {
 			if cd.v.Sign() < 0 {
@@ -228,6 +282,23 @@ func (c *checker) perturbPoints(s *sysInst) {
 			{"doubled", c10.MulP(base, big2)},
 			{"generic-point", c10.MulG(p.ec, c10.Generic("c12/point/"+s.name+"/"+p.name, q))},
 			{"G", G},
+		}
+		// every other curve point that shares one coordinate with the base point
+		fp := p.ec.Params().P
+		negc := func(v *big.Int) *big.Int { return new(big.Int).Mod(new(big.Int).Neg(v), fp) }
+		mk := func(n string, x, y *big.Int) {
+			if pt, err := crypto.NewECPoint(p.ec, x, y); err == nil {
+				cands = append(cands, struct {
+					n  string
+					pt *crypto.ECPoint
+				}{n, pt})
+			}
+		}
+		mk("same-x-other-y", base.X(), negc(base.Y()))
+		mk("same-y-other-x", negc(base.X()), base.Y()) // on the twisted Edwards curve only
+		mk("both-coordinates-negated", negc(base.X()), negc(base.Y()))
+		for k, b := range cubeRootsOfUnity(fp) { // secp256k1: (beta*x, y) is on the curve
+			mk(fmt.Sprintf("same-y-x-times-cube-root-of-unity-%d", k+1), new(big.Int).Mod(new(big.Int).Mul(base.X(), b), fp), base.Y())
 		}
 		kind := "point"
 		if p.inStmt {
